@@ -107,13 +107,50 @@ struct Pool {
   }
 };
 
+// Mined collision pool (C03 follow-up): random streams practically never offer two DISTINCT coupons with the same 26-bit
+// address (~4e-7 per list), identical coupons from distinct items, or chosen same-slot groups.  At start-up n integers are
+// hashed with the REFERENCE hash and indexed so that the drivers can plant such groups deliberately in every mode.
+struct Mined {
+  std::vector<std::pair<uint64_t, Coupon>> all;
+  std::vector<std::pair<int, int>> same_addr;     // equal addr26, different value (first = larger value)
+  std::vector<std::pair<int, int>> same_coupon;   // distinct items, identical coupon
+  void build(uint64_t n) {
+    Item it; it.type = 0; it.dv = 0;
+    all.reserve(n);
+    for (uint64_t i = 1; i <= n; i++) { it.iv = (long long)(1000000 + i); Coupon c; ref_coupon(it, c); all.push_back({(uint64_t)it.iv, c}); }
+    std::vector<int> ix(all.size());
+    for (size_t i = 0; i < ix.size(); i++) ix[i] = (int)i;
+    std::sort(ix.begin(), ix.end(), [&](int a, int b) { return all[a].second.addr < all[b].second.addr || (all[a].second.addr == all[b].second.addr && a < b); });
+    for (size_t i = 0; i + 1 < ix.size(); i++) for (size_t j = i + 1; j < ix.size() && all[ix[j]].second.addr == all[ix[i]].second.addr; j++) {
+      int a = ix[i], b = ix[j];
+      if (all[a].second.val == all[b].second.val) same_coupon.push_back({a, b});
+      else if (all[a].second.val > all[b].second.val) same_addr.push_back({a, b}); else same_addr.push_back({b, a});
+    }
+  }
+  // entries whose 26-bit address has its six top bits set (slots near the top at every lg_k)
+  std::vector<int> top_addr() const { std::vector<int> r; for (size_t i = 0; i < all.size(); i++) if ((all[i].second.addr >> 20) == 63) r.push_back((int)i); return r; }
+  // the values fit both 64-bit overloads (same canonical bytes)
+  Item item(int idx, vt::Rng& g) const { Item it; it.type = (int)g.below(2); it.dv = 0; it.iv = (long long)all[idx].first; return it; }
+  // up to maxn pool entries falling into the slot of entry `seed_idx` at 2^lgk slots, with pairwise different addresses
+  std::vector<int> same_slot(int lgk, int seed_idx, size_t maxn) const {
+    uint32_t mask = ((uint32_t)1 << lgk) - 1, slot = all[seed_idx].second.addr & mask;
+    std::vector<int> r;
+    for (size_t i = 0; i < all.size() && r.size() < maxn; i++) if ((all[i].second.addr & mask) == slot) {
+      bool dup = false; for (int j : r) if (all[j].second.addr == all[i].second.addr) dup = true;
+      if (!dup) r.push_back((int)i);
+    }
+    return r;
+  }
+};
+
 static inline long long fl(double x) { if (!(x == x)) return -1; double f = std::floor(x); return f > 2e9 ? 2000000000LL : (f < -2e9 ? -2000000000LL : (long long)f); }
 
 struct View {            // decoded public images of a sketch
   int lgk, mode, type, flags, cmode;
   int curMin = 0; long long auxN = 0;   // HLL mode: cur-min byte and aux count of the sketch's own image (informational)
   std::vector<Coupon> coup; long long cnt;
-  std::vector<uint8_t> regs;
+  std::vector<uint8_t> regs;                              // dense registers (lg_k <= 16)
+  bool sparse = false; std::vector<std::pair<uint32_t, uint32_t>> nz;   // lg_k > 16: the non-zero registers as (slot, value)
 };
 
 static inline View view(const hll_sketch& s, bool content = true) {
@@ -128,7 +165,8 @@ static inline View view(const hll_sketch& s, bool content = true) {
   v.cmode = img[7] & 3;
   if (v.cmode == 2) {
     size_t k = (size_t)1 << img[3];
-    v.regs.assign(img.begin() + 40, img.begin() + 40 + k);
+    if (img[3] > 16) { v.sparse = true; for (size_t x = 0; x < k; x++) if (img[40 + x]) v.nz.push_back({(uint32_t)x, (uint32_t)img[40 + x]}); }
+    else v.regs.assign(img.begin() + 40, img.begin() + 40 + k);
   } else {
     size_t start = v.cmode == 0 ? 8 : 12;
     if (v.cmode == 0) v.cnt = img[6]; else { uint32_t n; memcpy(&n, &img[8], 4); v.cnt = n; }
@@ -138,6 +176,17 @@ static inline View view(const hll_sketch& s, bool content = true) {
     }
   }
   return v;
+}
+
+// mode of a sketch without serializing it (large lg_k): the summary of to_string() names it
+static inline int mode_light(const hll_sketch& s) {
+  std::string t(s.to_string(true, false, false, false).c_str());
+  size_t p = t.find("Current Mode");
+  if (p == std::string::npos) return -1;
+  std::string rest = t.substr(p, 40);
+  if (rest.find("LIST") != std::string::npos) return 0;
+  if (rest.find("SET") != std::string::npos) return 1;
+  return rest.find("HLL") != std::string::npos ? 2 : -1;
 }
 
 static inline std::string coupons_json(const std::vector<Coupon>& cs) {
@@ -165,7 +214,11 @@ static inline std::string proj(int id, const hll_sketch& s) {
    .i("typeApi", s.get_target_type() == HLL_4 ? 4 : (s.get_target_type() == HLL_6 ? 6 : 8))
    .b("full", (v.flags & 32) != 0).b("ooo", (v.flags & 16) != 0)
    .i("mode", v.mode).i("cmode", v.cmode).b("empty", s.is_empty()).i("cnt", v.cnt).i("curMin", v.curMin).i("auxN", v.auxN);
-  if (v.cmode == 2) r.il("regs", v.regs); else r.raw("coup", coupons_json(v.coup));
+  if (v.cmode == 2 && v.sparse) {
+    std::string z = "[";
+    for (size_t x = 0; x < v.nz.size(); x++) { if (x) z += ","; z += "[" + std::to_string(v.nz[x].first) + "," + std::to_string(v.nz[x].second) + "]"; }
+    r.raw("nz", z + "]");
+  } else if (v.cmode == 2) r.il("regs", v.regs); else r.raw("coup", coupons_json(v.coup));
   est_fields(r, s);
   r.s += "}";
   return r.s;
